@@ -360,6 +360,7 @@ def repair_case(case, ctx):
             k = (_merged_node_key(spec, _node(s_), vec), _opk(spec, s_, vec))
             if first.setdefault(k, _var(s_)) != _var(s_):
                 e["d"] = None
+                e["sp"] = None
         case.setdefault("_repaired", []).append("F-09e")
     return case
 
@@ -415,3 +416,50 @@ def two_delayed_source_variables_in_one_operator(case):
         if _delayed(e):
             by_op.setdefault((_merged_node_key(spec, _node(s), vec), _opk(spec, s, vec)), set()).add(_var(s))
     return any(len(v) >= 2 for v in by_op.values())
+
+
+def _kernel(e):
+    import numpy as np
+    if e.get("sp") is not None and e.get("d") is not None:
+        n = int(np.round((e["d"] / e["sp"]) ** 2))
+        return (n, round(n / e["d"], 9))
+    return (0, 0.0)
+
+
+@predicate("F-11a")
+def vectorized_single_source_unit_with_shared_kernel_group(case):
+    """vectorize=True: a source variable of an un-merged (single-unit) node that has a gamma-kernel edge and two or
+    more outgoing edges in one (order, rate) group (two edges with the same kernel, or two plain edges next to a gamma
+    edge): IndexError 'invalid index to scalar variable' when the function is called"""
+    if not case.get("cfg", {}).get("vectorize"):
+        return False
+    spec = case["spec"]
+    groups = _groups(spec, True)
+    by_src = {}
+    for s, t, e in _abs_edges(spec):
+        by_src.setdefault(s, []).append(e)
+    for s, es in by_src.items():
+        if len(groups[_merged_node_key(spec, _node(s), True)]) != 1:
+            continue
+        if not any(e.get("sp") is not None for e in es):
+            continue
+        ks = [_kernel(e) for e in es]
+        if any(ks.count(k) >= 2 for k in set(ks)):
+            return True
+    return False
+
+
+@predicate("F-11b")
+def discrete_delay_next_to_gamma_kernel_on_one_source(case):
+    """a source variable (of one IR node: vectorisation merges the units of a node type) with a gamma-kernel edge
+    (delay+spread) and a discrete-delay edge (delay only): the discrete delay is dropped (the ODE-approximation branch
+    gives it order 0)"""
+    spec = case["spec"]
+    vec = bool(case.get("cfg", {}).get("vectorize"))
+    by_src = {}
+    for s, t, e in _abs_edges(spec):
+        by_src.setdefault((_merged_node_key(spec, _node(s), vec), _opk(spec, s, vec), _var(s)), []).append(e)
+    for es in by_src.values():
+        if any(e.get("sp") is not None for e in es) and any(e.get("d") is not None and e.get("sp") is None for e in es):
+            return True
+    return False
